@@ -184,14 +184,32 @@ def rule_r3(repo):
                 'parse: a rejected expression leaves residue for the next one parsed with the same parser' % sorted(missing))
     # wire(): test-and-set before any mutation
     wire = repo.own_method('TemplateData', 'wire')
-    body = [s for s in wire.node.body if not (isinstance(s, ast.Expr) and isinstance(s.value, ast.Constant))]
-    first = body[0] if body else None
-    ok = isinstance(first, ast.If) and norm(first.test) == 'self._is_wired' and any(isinstance(x, ast.Return) for x in first.body) and \
-        any(isinstance(x, ast.Assign) and norm(x) == 'self._is_wired = True' for x in first.orelse)
-    rr.instance('TemplateData.wire is guarded by _is_wired')
-    if not ok:
-        rr.fail('TemplateData.wire:idempotent', wire.where, 'wire() does not begin with `if self._is_wired: return / else: self._is_wired = True`: a second rendering or query '
-                'would append the node tree again')
+
+    class W(Interp):
+        def on_call(self2, text, callee, args, kwargs, node, frame):
+            if text == 'self.wire_members':
+                self2.event('wire_members', frame.locals['self'].fields.get('_is_wired'))
+                return None
+            if text in ('functools.partial', 'itertools.count'):
+                return Top(text)
+            return self2.NOT_HANDLED
+    for wired in (True, False):
+        it = W(repo, 'TemplateData')
+        res = it.run_function(wire, lambda: {'self': Obj('TemplateData', {
+            '_is_wired': wired, 'is_compressed': False, 'n_subsets': 2, 'template': Obj('BufrTemplate', {'members': []}),
+            'decoded_nodes_all_subsets': [[], []], 'decoded_descriptors_all_subsets': [[], []], 'decoded_values_all_subsets': [[], []],
+            'bitmap_links_all_subsets': [{}, {}], 'index_to_node': {}})}, self_class='TemplateData')
+        rr.instance('TemplateData.wire() on %s data' % ('already wired' if wired else 'fresh'))
+        for r in res:
+            calls = [e[1] for e in r.events if e[0] == 'wire_members']
+            if not r.ok:
+                rr.fail('TemplateData.wire:raises', wire.where, 'wire() raises %s' % r.exc.cls)
+            elif wired and calls:
+                rr.fail('TemplateData.wire:idempotent', wire.where, 'wire() on already wired data walks the template again (%d times): a second rendering or query would '
+                        'append the node tree once more' % len(calls))
+            elif not wired and (len(calls) != 2 or any(c is not True for c in calls) or r.locals['self'].fields.get('_is_wired') is not True):
+                rr.fail('TemplateData.wire:flag', wire.where, 'wire() on fresh data: %d subset walks, flag %r during the walk, %r afterwards (expected the flag set before the first walk)' % (
+                    len(calls), calls[:1], r.locals['self'].fields.get('_is_wired')))
     init = repo.own_method('TemplateData', '__init__')
     if 'self._is_wired = False' not in norm(init.node):
         rr.fail('TemplateData.__init__:is_wired', init.where, '_is_wired is not initialised to False')
